@@ -6,7 +6,7 @@ emitter spells as a quoted string, a bare word, a boolean or null:
   * the emitter writes exactly `flatText` (`C01_flat_emit`);
   * the lexer reads that text back as exactly the expected token list, positions included, in both lexer modes
     (`C01_flat_lexes`, `C01_flat_emit_then_lex`) — in particular every string value comes back as ONE token carrying
-    exactly the string, whatever characters it contains (C04 at document level);
+    exactly the string, every integer as ONE NUMBER token carrying exactly the integer, whatever characters it contains (C04 at document level);
   * the canonical text yields no normalisation receipt (`C07_flat_canonical_no_normalization`).
 
 The parser half (token list → the same Document) is `Props/C02flat.lean`.
@@ -69,17 +69,18 @@ theorem C07_flat_canonical_no_normalization (env : Env) (lenient : Bool) (name :
 
 def exLines : List FLine :=
   [⟨"A".toList, .qstr "x \"y\" \\n → z".toList⟩, ⟨"B_1".toList, .bare "word".toList⟩, ⟨"C.d".toList, .bool true⟩,
-   ⟨"E".toList, .null⟩, ⟨"F".toList, .qstr "true".toList⟩, ⟨"G".toList, .qstr [] ⟩, ⟨"H".toList, .bool false⟩]
+   ⟨"E".toList, .null⟩, ⟨"F".toList, .qstr "true".toList⟩, ⟨"G".toList, .qstr [] ⟩, ⟨"H".toList, .bool false⟩,
+   ⟨"N".toList, .int (-42)⟩, ⟨"BIG".toList, .int (10 ^ 30)⟩]
 
 theorem exLines_ok : ∀ ln ∈ exLines, ln.OK := by
   intro ln h
   simp only [exLines, List.mem_cons, List.mem_nil_iff, or_false] at h
-  rcases h with rfl | rfl | rfl | rfl | rfl | rfl | rfl <;> (unfold FLine.OK FScalar.OK; simp <;> decide)
+  rcases h with rfl | rfl | rfl | rfl | rfl | rfl | rfl | rfl | rfl <;> (unfold FLine.OK FScalar.OK; simp <;> decide)
 
 theorem exLines_emit : ∀ ln ∈ exLines, ln.EmitOK := by
   intro ln h
   simp only [exLines, List.mem_cons, List.mem_nil_iff, or_false] at h
-  rcases h with rfl | rfl | rfl | rfl | rfl | rfl | rfl <;> (unfold FLine.EmitOK; simp <;> decide)
+  rcases h with rfl | rfl | rfl | rfl | rfl | rfl | rfl | rfl | rfl <;> (unfold FLine.EmitOK; simp <;> decide)
 
 example : ∃ text, emit Env.ascii (flatDoc "DOC".toList (fun _ => (0, 0)) exLines) = some text ∧
     tokenize Env.ascii text false = .ok (flatToks "DOC".toList exLines, (linesRepsRev 2 exLines).reverse) :=
